@@ -36,7 +36,7 @@ arguments. For more detailed descriptions, see the respective docstrings.
 # external packages
 import gc
 from typing import List, Union, Dict, Optional, Tuple, Callable
-from copy import deepcopy
+from copy import copy, deepcopy
 from warnings import warn
 import pandas as pd
 from pandas import DataFrame, MultiIndex
@@ -1077,6 +1077,11 @@ class CircuitTemplate(AbstractBaseTemplate):
         net = self.circuits if self.circuits else self.nodes
         net_node = net[node[0]]
         if isinstance(net_node, CircuitTemplate):
+            # the same CircuitTemplate object may sit at several places of the hierarchy: work on a private (shallow)
+            # copy of the sub-circuit so that the new node template reaches the addressed place only
+            net_node = copy(net_node)
+            net_node.nodes, net_node.circuits = dict(net_node.nodes), dict(net_node.circuits)
+            net[node[0]] = net_node
             net_node.add_node_template(node[1:], template=template)
         else:
             self.nodes[node[0]] = template
